@@ -88,6 +88,9 @@ pub struct ExecState {
     pub fired_scripts: u32,
     pub panic_in_call: bool,
     pub any_panic: bool,
+    /// objects condemned or already destroyed in the current call when its (first) panic fired:
+    /// the members of the interrupted teardown(s); only their memory may leak
+    pub panic_scope: Option<Vec<Id>>,
     pub pending_clone: Option<(CloneDst, Id)>,
     pub clone_done: Option<Id>,
     pub c14: Option<(usize, usize, Id)>,
@@ -122,7 +125,7 @@ pub struct ExecState {
 impl Default for ExecState {
     fn default() -> Self {
         ExecState {
-            depth: 0, dtor_counter: 0, faults: Faults::default(), fired_panics: 0, fired_scripts: 0, panic_in_call: false, any_panic: false,
+            depth: 0, dtor_counter: 0, faults: Faults::default(), fired_panics: 0, fired_scripts: 0, panic_in_call: false, any_panic: false, panic_scope: None,
             pending_clone: None, clone_done: None, c14: None, record_dtors: false, dtors: vec![], call_digests: vec![], order_digest: 0,
             call_start_log: 0, c16_markers: false, collected_group_with_outside_survivor: false, nested_destroy_in_script: 0, nontrivial: 0,
             shape_hash: 0, dtor_downgrade_p: 0, dtor_rng: crate::gen::Rng(0), dtor_auto: 0, inline_record: vec![], call_start_alive: 0, call_start_traces: 0, call_start_visits: 0, clone_counter: 0, not_fully_recorded: false, shallow_clone: false, clone_releases: false, pinned: vec![],
@@ -352,6 +355,7 @@ impl Node {
                 x.fired_panics += 1;
                 x.panic_in_call = true;
                 x.any_panic = true;
+                note_panic_scope(x);
             });
             report::F_PANIC.store(true, Relaxed);
             st(St::f_dtor_panic_early, 1);
@@ -396,6 +400,7 @@ impl Node {
                 x.fired_panics += 1;
                 x.panic_in_call = true;
                 x.any_panic = true;
+                note_panic_scope(x);
             });
             report::F_PANIC.store(true, Relaxed);
             st(St::f_dtor_panic, 1);
@@ -573,6 +578,7 @@ impl Clone for Node {
                     x.fired_panics += 1;
                     x.panic_in_call = true;
                     x.any_panic = true;
+                    note_panic_scope(x);
                 });
                 report::F_PANIC.store(true, Relaxed);
                 st(St::f_clone_panic, 1);
@@ -1606,6 +1612,25 @@ fn exec_inner(op: &Op, dying: Option<&Node>) -> bool {
             st(if dead { St::f_downgrade_dead_peer_in_dtor } else { St::f_downgrade_live_in_dtor }, 1);
             true
         }
+        Op::SelfGetMutSlot { idx } => {
+            let Some(node) = dying else { return false };
+            let mut v = node.slots.borrow_mut();
+            let Some(sl) = v.get_mut(idx as usize) else { return false };
+            let t = sl.target;
+            let (alive, doomed, phys, nweak) = m(|m| {
+                let e = m.objs.get(&t).map_or(0, |o| o.epoch);
+                (m.is_alive(t), m.obligations.contains(&t), m.phys(t), m.nweak(t, e))
+            });
+            let got = sut(|| Rc::get_mut(&mut sl.h).is_some());
+            st(St::op_getmut_in_dtor, 1);
+            if got && (!alive || doomed) {
+                violation("api-result", "get_mut-on-dead-handle", &format!("inside the destructor of {}, Rc::get_mut on the stored handle to object {t}, which is destroyed or being destroyed by the same operation, returned a mutable reference", node.id.get()));
+            }
+            if alive && !doomed && got != (phys == 1 && nweak == 0) {
+                soft("api-result", "get_mut-in-destructor", &format!("inside the destructor of {}, Rc::get_mut on the stored handle to live object {t} returned {}, with {phys} strong and {nweak} Weak handles in existence", node.id.get(), if got { "Some" } else { "None" }));
+            }
+            true
+        }
         Op::SelfDropSlot { idx } => {
             let Some(node) = dying else { return false };
             let s = {
@@ -1697,6 +1722,19 @@ pub fn top_level(op: &Op) -> bool {
     did
 }
 
+/// Called when an injected panic fires: remember which objects belong to the teardown(s) in
+/// progress (condemned, or destroyed earlier in this call).
+fn note_panic_scope(x: &mut ExecState) {
+    // (a second panic of the same call, caught and replaced on the way, widens the scope)
+    let start = x.call_start_log;
+    let mut v = x.panic_scope.take().unwrap_or_default();
+    m(|m| {
+        v.extend(m.obligations.iter().copied());
+        v.extend(m.destroyed_log[start.min(m.destroyed_log.len())..].iter().copied());
+    });
+    x.panic_scope = Some(v);
+}
+
 fn after_call(panicked: bool) {
     c14_close();
     if verif::STALE_ACCESS.load(Relaxed) > 0 {
@@ -1729,10 +1767,18 @@ fn after_call(panicked: bool) {
         m.obligations_total = 0;
         m.obligations_group = 0;
         if panicked {
+            // memory of the interrupted teardown may leak (C11): that is the objects that were
+            // condemned or already destroyed when the panic fired - not groups that were
+            // collected in full while the panic was unwinding
+            let scope = x(|x| x.panic_scope.take());
             let destroyed: Vec<Id> = m.destroyed_log[start..].to_vec();
             for o in destroyed {
-                m.obj_mut(o).interrupted = true;
-                st(St::p_interrupted_objects, 1);
+                if scope.as_ref().map_or(true, |s| s.contains(&o)) {
+                    m.obj_mut(o).interrupted = true;
+                    st(St::p_interrupted_objects, 1);
+                } else {
+                    st(St::p_destroyed_in_full_during_unwind, 1);
+                }
             }
             for o in obl {
                 if m.is_alive(o) {
@@ -1897,9 +1943,8 @@ fn after_call(panicked: bool) {
     });
     report::F_HARNESS_DEREF.store(false, Relaxed);
 
-    if !any_panic {
-        check_memory();
-    }
+    let _ = any_panic;
+    check_memory();
 
     if !m(|m| m.fully_recorded()) {
         x(|x| x.not_fully_recorded = true);
@@ -1997,8 +2042,11 @@ fn check_memory() {
         } else if ob.rc {
             if ob.interrupted {
                 if state == BlockState::Live {
+                    // leaked by an interrupted teardown: allowed, and then the heap cannot be
+                    // expected to be empty at quiescence
                     expected_rcbox_live += 1;
                     tables_allowed += 1;
+                    all_dead = false;
                 }
                 continue;
             }
